@@ -499,19 +499,28 @@ class Eval:
                 break
             pl = cur[1]
             base = pl[0]
-            if fn.lname(base) is not None and len(pl) == 1:
-                break
             sd = fn.single_def(base)
+            if fn.lname(base) is not None and len(pl) == 1:
+                # a `let x = <place>` / pattern binding is just a name for that place
+                if not (sd is not None and sd[1] != 'term' and sd[2][0] == 'use' and sd[2][1][0] in ('c', 'm')
+                        and len(sd[2][1][1]) > 1):
+                    break
             if sd is None or sd[1] == 'term':
                 break
             rv = sd[2]
             if len(pl) == 1 and rv[0] == 'use':
                 cur = rv[1]
                 continue
-            if len(pl) == 2 and isinstance(pl[1], list) and pl[1][0] == 'f' and rv[0] == 'agg' \
+            if len(pl) >= 2 and isinstance(pl[1], list) and pl[1][0] == 'f' and rv[0] == 'agg' \
                     and rv[1][0] in ('adt', 'tuple') and pl[1][1] < len(rv[2]):
-                cur = rv[2][pl[1][1]]
-                continue
+                inner = rv[2][pl[1][1]]
+                if len(pl) == 2:
+                    cur = inner
+                    continue
+                if inner[0] in ('c', 'm'):
+                    cur = [inner[0], inner[1] + pl[2:]]
+                    continue
+                break
             if len(pl) >= 2 and rv[0] == 'use' and rv[1][0] in ('c', 'm') and fn.lname(base) is None:
                 cur = [cur[0], rv[1][1] + pl[1:]]
                 continue
@@ -530,18 +539,20 @@ class Eval:
         if root is None:
             return False
         base = root[0]
-        between = fn.reachable_from(guard_bb) & _can_reach(fn, site_bb)
-        between.discard(guard_bb) if False else None
+        # blocks on some path from the guard edge to the site that does not pass the guard again
+        # (the guard dominates the site, so only the last evaluation of the guard matters)
+        after = set()
+        for s_ in fn.succ[guard_bb]:
+            after |= fn.reachable_from(s_, removed={guard_bb})
+        between = after & _can_reach(fn, site_bb, removed={guard_bb})
         for b in between:
             stmts, term = fn.blocks[b]
             for st in stmts:
                 if st[0] == 'a' and st[1][0] == base and _overlaps(st[1], root):
                     # assignment to the same place (the temp copies have a different base)
-                    if b == guard_bb:
-                        continue
                     return False
             if term['k'] == 'call':
-                if term['d'][0] == base and _overlaps(term['d'], root) and b != guard_bb:
+                if term['d'][0] == base and _overlaps(term['d'], root):
                     return False
                 # &mut borrows of the root passed to a call
                 for a in term['a']:
@@ -620,6 +631,22 @@ class Eval:
                     r = (lo, hi)
         return r
 
+    def known_nonzero(self, op, at):
+        """a dominating guard established op != 0 (or op > 0 / op < 0 / op == non-zero constant)"""
+        for (opn, x, y, gb) in self.cond_facts(at):
+            for (p, q, o) in ((x, y, opn), (y, x, SWAP[opn])):
+                if p[0] == 'k' or not self.same(p, op):
+                    continue
+                if q[0] != 'k' or not isinstance(q[2].get('v'), int):
+                    continue
+                c = q[2]['v']
+                if not self.stable(op, gb, at):
+                    continue
+                if (o == 'Ne' and c == 0) or (o == 'Gt' and c >= 0) or (o == 'Ge' and c >= 1) or \
+                        (o == 'Lt' and c <= 0) or (o == 'Le' and c <= -1) or (o == 'Eq' and c != 0):
+                    return True
+        return False
+
     def known_rel(self, a, b, at):
         """relations a ? b known at block `at`: returns set of ops among Lt/Le/Gt/Ge/Eq/Ne"""
         out = set()
@@ -638,13 +665,13 @@ def _single_edge_into(fn, d, tgt):
     return fn.pred[tgt] == [d] and fn.succ[d].count(tgt) == 1
 
 
-def _can_reach(fn, target):
+def _can_reach(fn, target, removed=()):
     seen = {target}
     st = [target]
     while st:
         x = st.pop()
         for p in fn.pred[x]:
-            if p not in seen:
+            if p not in seen and p not in removed:
                 seen.add(p)
                 st.append(p)
     return seen
